@@ -1,0 +1,55 @@
+//go:build verif
+
+package kgo
+
+import "errors"
+
+// This file exists only in builds with the `verif` tag. It lets an external
+// verification harness reach the unexported pieces of compression.go
+// (property C19). Nothing here changes client behavior.
+
+// VerifXerialDecode exposes xerialDecode.
+func VerifXerialDecode(dst, src []byte) ([]byte, error) { return xerialDecode(dst, src) }
+
+// VerifSetMaxDecompressedSize sets maxDecompressedSize (as the package's own
+// tests do) and returns the previous value. Decompressors created afterwards
+// see the new value in every codec path.
+func VerifSetMaxDecompressedSize(n int64) int64 {
+	old := maxDecompressedSize
+	maxDecompressedSize = n
+	return old
+}
+
+// VerifMkCompressFlags exposes mkCompressFlags.
+func VerifMkCompressFlags(produceRequestVersion int16) []CompressFlag {
+	return mkCompressFlags(produceRequestVersion)
+}
+
+// VerifCompressorOptions returns the preference list a default compressor kept.
+func VerifCompressorOptions(c Compressor) ([]CompressionCodecType, bool) {
+	d, ok := c.(*compressor)
+	if !ok {
+		return nil, false
+	}
+	return append([]CompressionCodecType(nil), d.options...), true
+}
+
+// VerifCompressionCodec builds a CompressionCodec with an arbitrary codec
+// number (the public constructors only produce 0..4).
+func VerifCompressionCodec(codec int8, level int) CompressionCodec {
+	return CompressionCodec{CompressionCodecType(codec), level}
+}
+
+// VerifDecompressErrKind classifies an error of the default decompressor.
+func VerifDecompressErrKind(err error) string {
+	switch {
+	case err == nil:
+		return "nil"
+	case errors.Is(err, errDecompressedTooLarge):
+		return "toolarge"
+	case errors.Is(err, errMalformedXerial):
+		return "xerial"
+	default:
+		return "other"
+	}
+}
